@@ -96,6 +96,8 @@ def available_ops(m, variety=0):
                 ops.append(['args', t, 'slice', 0, 1])
                 ops.append(['args', t, 'slice', 0, 0])
                 ops.append(['args', t, 'slice', 1, len(n.args)])
+                ops.append(['args', t, 'perm', list(range(len(n.args)))[::-1],
+                            ('gen', 'list', 'reversed', 'iter')[(t + variety) % 4]])
                 if n.args[0].kind == 'arg':
                     ops.append(['args', t, 'arg_string', 0, 'AS'])
     for c, C in enumerate(containers(m)):
@@ -228,7 +230,21 @@ class Exec:
             elif sub == 'perm':
                 if real:
                     from TexSoup.data import TexArgs
-                    w.args = TexArgs([w.args[i] for i in op[3]])
+                    how = op[4] if len(op) > 4 else 'list'
+                    old = list(w.args)
+                    items = [old[i] for i in op[3]]
+                    # the constructor takes any iterable, one-shot ones included
+                    if how == 'gen':
+                        items = (x for x in items)
+                    elif how == 'reversed':
+                        items = reversed(items[::-1])
+                    elif how == 'map':
+                        items = map(lambda x: x, items)
+                    elif how == 'tuple':
+                        items = tuple(items)
+                    elif how == 'iter':
+                        items = iter(items)
+                    w.args = TexArgs(items)
                 n.args = [n.args[i] for i in op[3]]
             elif sub == 'arg_string':
                 if real:
